@@ -453,12 +453,14 @@ def classify(case, f, idx, default):
     """Mechanism key of a discrepancy on form ``f``."""
     up = f["mnemonic"].upper()
     arity = len(f["codes"])
-    if case["bench"] == "ibench" and "TP" in f["mnemonic"] and "LT" in f.get("lines", "") and default in ("throughput-snap", "latency-snap", "missing-form"):
-        return "import/ibench-tp-lt-substring"
     collide_model = arity in idx.get(up, ())
     collide_file = any(g is not f and g["mnemonic"].upper() == up and len(g["codes"]) == arity for g in case["forms"])
+    # the collision mechanism has precise preconditions and is judged first: a TP/LT-containing mnemonic that collides with an
+    # existing mnemonic/arity is lost for that reason, whatever its name
     if case["isa"] == "x86" and (collide_model or collide_file) and default in ("missing-form", "throughput-snap", "latency-snap", "operand-decode"):
         return "import/x86-existing-mnemonic-arity-lost"
+    if case["bench"] == "ibench" and "TP" in f["mnemonic"] and "LT" in f.get("lines", "") and default in ("throughput-snap", "latency-snap", "missing-form"):
+        return "import/ibench-tp-lt-substring"
     if default == "missing-form" and (collide_model or collide_file):
         return "import/%s-existing-mnemonic-arity-lost" % case["isa"]
     return "import/" + default
